@@ -5,7 +5,7 @@ from .. import facts
 from ..cfg import Cfg, bool_edges
 from ..common import arg_fields, arg_roots, def_of, inst_of, method, target_of, gate_for
 from ..prov import Prov, flatten
-from ..util import fns_by_key, keyname, place_of, norm, last
+from ..util import fns_by_key, keyname, place_of, norm, last, with_closures
 from .c13 import ops_on, _base_local
 
 LEVEL = "other"
@@ -53,6 +53,7 @@ def run(ck, tier):
     p = facts.load()
     byk = fns_by_key(p)
     _idem(ck, p)
+    _casefree_condensers(ck, p)
     _callers(ck, p)
     fs = byk.get("harper_core::title_case::make_title_case")
     if not ck.anchor("R-C18-length", "title_case::make_title_case", fs):
@@ -353,3 +354,30 @@ def _callers(ck, p):
             else:
                 ck.undecided(rule, key, f.loc(t["ln"]), "parser type %s: whether its tokens cover the whole text is not decided" % tys)
     ck.extra["title_case_callers"] = n
+
+
+# ---------------------------------------------------------------------------------------------------
+CASE_SENSITIVE_STEPS = {"then_exact_word", "then_exact_phrase", "then_strict_word"}
+
+
+def _casefree_condensers(ck, p):
+    """Title-casing parses its input, and parses its own output when applied again.  The patterns by
+    which Document glues tokens together (`et al.`, contractions, ellipses, `a`/`an` ..) must therefore
+    match whatever the case of the letters: a condenser that recognises `et al.` but not `Et al.` glues
+    the words on the first pass, is handed `Et al.` on the second, leaves `al` a word of its own - and the
+    second pass capitalises it."""
+    rule = "R-C18-idem"
+    fs = [f for f in p.fns.values() if f.name.startswith("harper_core::document::") and re.search(r"::uncached_\w+_pattern$", f.name)]
+    ck.floor(rule, "pattern builders of the Document condensing passes", len(fs), 2)
+    for f in sorted(fs, key=lambda g: g.name):
+        ck.saw(f)
+        hits = []
+        for g in with_closures(p, f):
+            for bi, t in g.calls():
+                if method(t) in CASE_SENSITIVE_STEPS:
+                    hits.append((method(t), g.loc(t["ln"])))
+        key = "%s:case-free" % keyname(p, f)
+        if hits:
+            ck.refuted(rule, key, hits[0][1], "the pattern matches a word by its exact characters (%s): the tokens of a text then depend on the case of its letters - title-casing changes that case, so its output is tokenised differently from its input and a second pass capitalises a word the first one had glued into a neighbour (`smith et al.` -> `Smith Et al.` -> `Smith Et Al.`)" % ", ".join(sorted({h[0] for h in hits})))
+        else:
+            ck.proved(rule, key, f.span, "no case-sensitive word step in the pattern")
